@@ -1,0 +1,37 @@
+//go:build verif
+
+// Verification hooks: exported entry points to otherwise unexported pure
+// functions, compiled only with the "verif" build tag.
+
+package core
+
+// VerifShellSafeQuote exposes shellSafeQuote.
+func VerifShellSafeQuote(s string) string {
+	return shellSafeQuote(s)
+}
+
+// VerifFormatArgs exposes formatArgs.
+func VerifFormatArgs(envs map[string]string, shellCmd string, argv []string) string {
+	return formatArgs(envs, shellCmd, argv)
+}
+
+// VerifJobScript renders the cluster job script for the given template the
+// way RemoteJobManager.sendJob does, for a job whose metadata directory is
+// mdPath.
+func VerifJobScript(template string, shellCmd string, argv []string,
+	envs map[string]string, mdPath string, res JobResources,
+	fqname, shellName string) string {
+	jm := &RemoteJobManager{
+		config: jobManagerConfig{
+			jobSettings: &JobManagerSettings{
+				ThreadsPerJob: 1,
+				MemGBPerJob:   1,
+			},
+			jobTemplate:      template,
+			threadingEnabled: true,
+		},
+		jobResourcesMappings: map[string]string{},
+	}
+	return jm.jobScript(shellCmd, argv, envs,
+		NewMetadata(fqname, mdPath), &res, fqname, shellName)
+}
